@@ -10,8 +10,8 @@
    a sub-list of the event), an event-level cut is [filter keep] for an arbitrary predicate, with
    Filter.py's convention [] -> [[]]. *)
 From Coq Require Import List ZArith Bool QArith.
-From SX Require Import Lib.Py Model.Storer Model.StorerSpec Model.StorerCheck
-  Proofs.C04_Core Proofs.C04_Add Proofs.C04_Run Proofs.C04_Load Proofs.C04_Examples.
+From SX Require Import Lib.Py Model.Storer Model.StorerSpec Model.StorerCheck Model.StorerWrappers
+  Proofs.C04_Wrappers Proofs.C04_Core Proofs.C04_Add Proofs.C04_Run Proofs.C04_Load Proofs.C04_Examples.
 Import ListNotations.
 Local Open Scope Z_scope.
 
@@ -108,6 +108,13 @@ Theorem C04_add_other_class : forall a b, scls a <> scls b -> add a b = Err Type
 Proof. exact add_other_class. Qed.
 Print Assumptions C04_add_other_class.
 
+(* source tie of the filter step: the translator accepted every filter method of BaseStorer and of the
+   subclasses as `particle_list_ = f(particle_list_, args); recount; return self` (or a plain refusal), and the
+   regenerated tables cover exactly the public functions of Filter.py, each wrapped under its own name *)
+Theorem C04_wrappers : wrappers_ok = true.
+Proof. exact wrappers_cover. Qed.
+Print Assumptions C04_wrappers.
+
 (* what the three loaders hand to the storer (full, single-event, range loads, with or without
    constructor filters) satisfies the invariant *)
 Theorem C04_loaded_inv_oscar : forall evs s filt fmt st, load_oscar evs s filt fmt = Ok st -> Inv st.
@@ -121,6 +128,23 @@ Print Assumptions C04_loaded_inv_jetscape.
 Theorem C04_loaded_inv_pobj : forall evs s filt st, load_pobj evs s filt = Ok st -> Inv st.
 Proof. exact load_pobj_Inv. Qed.
 Print Assumptions C04_loaded_inv_pobj.
+
+(* the property in one statement: construction by any of the loaders followed by any finite admissible
+   history never raises, keeps the invariant, reports the number of events held, mirrors them in
+   particle_list() and holds what the same operations give on the plain list *)
+Theorem C04_loaded_history_file : forall c base evs s filt xe fmt pt sg s0 ops,
+  load_file c base evs s filt xe fmt pt sg = Ok s0 -> Forall (adm_op s0) ops ->
+  exists st, run s0 ops = Ok st /\ Inv st /\ held st = run_spec (held s0) ops /\
+             nevents st = zlen (held st) /\ particle_list st = Ok (plist_spec st).
+Proof. exact loaded_file_history. Qed.
+Print Assumptions C04_loaded_history_file.
+
+Theorem C04_loaded_history_pobj : forall evs s filt s0 ops,
+  load_pobj evs s filt = Ok s0 -> Forall (adm_op s0) ops ->
+  exists st, run s0 ops = Ok st /\ Inv st /\ held st = run_spec (held s0) ops /\
+             nevents st = zlen (held st) /\ particle_list st = Ok (plist_spec st).
+Proof. exact loaded_pobj_history. Qed.
+Print Assumptions C04_loaded_history_pobj.
 
 (* the shapes the unrepaired loaders handed over are unusable: the loader tuple of
    ParticleObjectLoader taken as is, and a 1-D count array *)
